@@ -212,6 +212,29 @@ theorem sem_held_iff_running {cap : Nat} {s : St} (h : Reach cap s) :
   simp [limRunning, holdsSem] at ht ⊢
   simp [ht.1, ht.2]
 
+/-- both directions of "exactly while it runs", on every reachable state: every limited body in progress has its slot
+(the bodies in progress are no more than the occupied slots), and a slot is occupied only by a call between its acquire
+and the release that follows its body — a call that has not acquired yet, one that was refused (`ErrUnavailable`,
+`ErrThrottled`), one that has released and one that is over hold none, and nothing else can occupy a slot because the
+occupancy *is* the number of calls in that window (`sem = countP holdsSem`). -/
+theorem slot_exactly_around_the_body {cap : Nat} {s : St} (h : Reach cap s) :
+    s.threads.countP limRunning ≤ s.sem ∧
+    s.sem = s.threads.countP holdsSem ∧
+    (∀ t : Thread, holdsSem t = true ↔
+      (t.kind.isLimited = true ∧
+        (t.pc = .semHeld ∨ t.pc = .refHold ∨ t.pc = .accepted ∨ t.pc = .running ∨ t.pc = .ended))) := by
+  have I := inv_reach h
+  refine ⟨?_, I.cnt.sem, ?_⟩
+  · rw [I.cnt.sem]
+    apply List.countP_mono_left
+    intro t _ ht
+    obtain ⟨kind, pc, ret⟩ := t
+    simp [limRunning, holdsSem] at ht ⊢
+    simp [ht.1, ht.2]
+  · intro t
+    obtain ⟨kind, pc, ret⟩ := t
+    cases pc <;> simp [holdsSem]
+
 /-- on the log: one slot per limited body in progress (the entry's own body included); after the drain only calls
 that have not returned hold slots -/
 theorem sem_on_log {cap : Nat} {s : St} (h : Reach cap s) {pre post : List Ev} {e : Ev}
